@@ -39,6 +39,9 @@
 
 namespace {
 
+  /// Largest number of energy samples accepted from a tabulated data file (sanity bound)
+  const unsigned int max_nsamples = 100000;
+
   /// \brief Tabulated kinetic energy model for both emitted electrons:
   struct tabulated_prob_type
   {
@@ -439,6 +442,9 @@ namespace bxdecay0 {
         if (_pimpl_->tab_prob.e_min[0] < 0.0 or _pimpl_->tab_prob.e_min[0] >= _pimpl_->tab_prob.e_max[0]) {
           throw std::logic_error("bxdecay0::dbd_gA::_load_tabulated_pdf_: Invalid E range!");
         }
+        if (_pimpl_->tab_prob.nsamples < 2 or _pimpl_->tab_prob.nsamples > max_nsamples) {
+          throw std::logic_error("bxdecay0::dbd_gA::_load_tabulated_pdf_: Invalid number of energy samples!");
+        }
 
         _pimpl_->tab_prob.e_nsamples[0] = _pimpl_->tab_prob.nsamples;
         _pimpl_->tab_prob.e_nsamples[1] = _pimpl_->tab_prob.nsamples;
@@ -487,6 +493,9 @@ namespace bxdecay0 {
         if (prob_index == 0) {
           _pimpl_->tab_prob.prob.reserve(n1 * n2);
         }
+        if (e2_pdf_count >= (int)_pimpl_->tab_prob.nsamples) {
+          throw std::logic_error("bxdecay0::dbd_gA::_load_tabulated_pdf_: Too many lines of p.d.f. samples!");
+        }
         unsigned int e2_expected_samples = _pimpl_->tab_prob.nsamples - e2_pdf_count;
         unsigned int e2_sample_count     = 0;
         // std::cerr << "[debug] bxdecay0::dbd_gA::_load_tabulated_pdf_: raw_line = <" << raw_line << '>' << std::endl;
@@ -506,6 +515,10 @@ namespace bxdecay0 {
                                    + std::to_string(prob) + "] at line #" + std::to_string(nlines) + "!");
           }
           e2_sample_count++;
+          if (e2_sample_count > e2_expected_samples) {
+            throw std::logic_error(
+                "bxdecay0::dbd_gA::_load_tabulated_pdf_: expected vs effective E2 prob count match issue!");
+          }
           int index1 = prob_index / n2;
           int index2 = prob_index % n2;
           double e1  = _pimpl_->tab_prob.e_samples[0][index1];
@@ -552,6 +565,9 @@ namespace bxdecay0 {
         }
         break;
       }
+    }
+    if (!parsed_energy_sampling_header or e2_pdf_count != (int)_pimpl_->tab_prob.nsamples) {
+      throw std::logic_error("bxdecay0::dbd_gA::_load_tabulated_pdf_: Incomplete table of p.d.f. samples!");
     }
     if (debug) {
       std::cerr << "[debug] bxdecay0::dbd_gA::_load_tabulated_pdf_: Energy sampling step = "
@@ -659,6 +675,9 @@ namespace bxdecay0 {
         if (_pimpl_->tab_prob.e_min[0] < 0.0 or _pimpl_->tab_prob.e_min[0] >= _pimpl_->tab_prob.e_max[0]) {
           throw std::logic_error("bxdecay0::dbd_gA::_load_tabulated_cdf_opt_: Invalid E range!");
         }
+        if (_pimpl_->tab_prob.nsamples < 2 or _pimpl_->tab_prob.nsamples > max_nsamples) {
+          throw std::logic_error("bxdecay0::dbd_gA::_load_tabulated_cdf_opt_: Invalid number of energy samples!");
+        }
 
         _pimpl_->tab_prob.energies.reserve(_pimpl_->tab_prob.nsamples);
         _pimpl_->tab_prob.e_min[1] = _pimpl_->tab_prob.e_min[0];
@@ -699,6 +718,10 @@ namespace bxdecay0 {
       if (!parsed_e1_cdf) {
         std::istringstream line_iss(raw_line);
         load_optimized_cdf_array(raw_line, _pimpl_->tab_prob.e1_cprobs);
+        if (_pimpl_->tab_prob.e1_cprobs.size() != _pimpl_->tab_prob.nsamples) {
+          throw std::logic_error(
+              "bxdecay0::dbd_gA::_load_tabulated_cdf_opt_: expected vs effective E1 cprob count match issue!");
+        }
         parsed_e1_cdf = true;
         // Prepare the number of e2 energy samples for a c.d.f. probs line:
         _pimpl_->tab_prob.e2_cprobs.reserve(_pimpl_->tab_prob.e1_cprobs.size());
@@ -720,6 +743,9 @@ namespace bxdecay0 {
           _pimpl_->tab_prob.e2_cprobs.push_back(empty);
         }
         std::vector<double> & cdf_probs  = _pimpl_->tab_prob.e2_cprobs.back();
+        if (e2_cdf_count >= (int)_pimpl_->tab_prob.nsamples) {
+          throw std::logic_error("bxdecay0::dbd_gA::_load_tabulated_cdf_opt_: Too many lines of E2 c.d.f. samples!");
+        }
         unsigned int e2_expected_samples = _pimpl_->tab_prob.nsamples - e2_cdf_count;
         cdf_probs.reserve(e2_expected_samples);
         load_optimized_cdf_array(raw_line, cdf_probs);
@@ -753,6 +779,9 @@ namespace bxdecay0 {
         break;
       }
     } // while getline loop
+    if (!parsed_e1_cdf or e2_cdf_count != (int)_pimpl_->tab_prob.nsamples) {
+      throw std::logic_error("bxdecay0::dbd_gA::_load_tabulated_cdf_opt_: Incomplete table of c.d.f. samples!");
+    }
     if (debug) {
       std::cerr << "[debug] bxdecay0::dbd_gA::_load_tabulated_cdf_opt_: Energy sampling step = "
                 << std::to_string(_pimpl_->tab_prob.energy_step) << " MeV" << std::endl;
